@@ -107,7 +107,8 @@ package ucfg
 //@ ensures result == f.a
 
 //@ func (idxField).String
-//@ trusted
+//@ props C07
+//@ sweep
 //@ pure
 
 //@ func (idxField).GetValue
@@ -182,10 +183,11 @@ package ucfg
 //@ ensures result != nil && fresh(result)
 
 //@ func (*Config).Merge :: c, from, options -> err
-//@ props C07
+//@ props C07 C14
 //@ sweep
 //@ requires c != nil
 //@ modifies tree(c)
+//@ ensures [typed @C14,C07] isTyped(err)
 //@ ensures [naming !unproved] mergedWith(c, from, options)
 
 //@ ghost func copyOf(r value, x value) bool
@@ -952,18 +954,22 @@ package ucfg
 //@ ghost func iwSpec(child *fieldHandlingTree, parent *fieldHandlingTree) *fieldHandlingTree
 
 //@ func (*fieldHandlingTree).child :: t, fieldName, idx -> r, err
-//@ trusted
+//@ props C07 C16
+//@ sweep
 //@ pure
 //@ requires t != nil
-//@ ensures (err == nil) == (childT(t, fieldName, idx) != nil)
-//@ ensures r == childT(t, fieldName, idx)
+//@ ensures [naming_ok !unproved] (err == nil) == (childT(t, fieldName, idx) != nil)
+//@ ensures [naming_val !unproved] r == childT(t, fieldName, idx)
+//@ ensures [nil_on_error] err != nil ==> r == nil
 
 //@ func (*fieldHandlingTree).configHandling :: t, fieldName, idx -> r, err
-//@ trusted
+//@ props C07 C16
+//@ sweep
 //@ pure
 //@ requires t != nil
-//@ ensures fieldName == "*" && idx == -1 ==> (err == nil) == hasPolicy(t)
-//@ ensures fieldName == "*" && idx == -1 && err == nil ==> r == policyT(t)
+//@ ensures [naming_ok !unproved] fieldName == "*" && idx == -1 ==> (err == nil) == hasPolicy(t)
+//@ ensures [naming_val !unproved] fieldName == "*" && idx == -1 && err == nil ==> r == policyT(t)
+//@ ensures [default_on_error] err != nil ==> r == cfgDefaultHandling
 
 //@ func (*fieldHandlingTree).wildcard :: t -> r, err
 //@ props C16
@@ -1003,6 +1009,7 @@ package ucfg
 //@ sweep
 //@ requires t != nil
 //@ modifies tree(t)
+//@ ensures [typed] isTyped(err)
 
 //@ func makeFieldOptValueHandling$1$(*options)#2 :: o
 //@ props C07 C16
@@ -1012,12 +1019,53 @@ package ucfg
 //@ ensures [own_tree] old(o.fieldHandlingTree) == nil ==> fresh(o.fieldHandlingTree)
 //@ ensures [kept_tree] old(o.fieldHandlingTree) != nil ==> o.fieldHandlingTree == old(o.fieldHandlingTree)
 
+// C14: the setters of the exported API return typed errors (what setField returns is an Error by its static type)
+//@ func (*Config).SetBool :: c, name, idx, value, opts -> err
+//@ props C07 C14
+//@ sweep
+//@ ensures [typed @C14,C07] isTyped(err)
+
+//@ func (*Config).SetInt :: c, name, idx, value, opts -> err
+//@ props C07 C14
+//@ sweep
+//@ ensures [typed @C14,C07] isTyped(err)
+
+//@ func (*Config).SetUint :: c, name, idx, value, opts -> err
+//@ props C07 C14
+//@ sweep
+//@ ensures [typed @C14,C07] isTyped(err)
+
+//@ func (*Config).SetFloat :: c, name, idx, value, opts -> err
+//@ props C07 C14
+//@ sweep
+//@ ensures [typed @C14,C07] isTyped(err)
+
+//@ func (*Config).SetString :: c, name, idx, value, opts -> err
+//@ props C07 C14
+//@ sweep
+//@ ensures [typed @C14,C07] isTyped(err)
+
+//@ func (*Config).SetChild :: c, name, idx, value, opts -> err
+//@ props C07 C14
+//@ sweep
+//@ ensures [typed @C14,C07] isTyped(err)
+
+//@ func (*fieldHandlingTree).setWildcard :: t, wildcard -> err
+//@ props C07
+//@ sweep
+//@ ensures [typed] isTyped(err)
+
+// includeWildcard (was trusted): what carries the parent's "**" entry down one level. Proved: without a parent or
+// without a wildcard entry the child is handed on as it is; an error comes with a nil tree. The name iwSpec of the
+// result and the frame are assumed (sweep tier).
 //@ func includeWildcard :: child, parent -> r, err
-//@ trusted
+//@ props C07 C16
+//@ sweep
 //@ pure
-//@ ensures err == nil ==> r == iwSpec(child, parent)
-//@ ensures parent == nil ==> err == nil && r == child
-//@ ensures err != nil ==> r == nil
+//@ ensures [naming !unproved] err == nil ==> r == iwSpec(child, parent)
+//@ ensures [no_parent] parent == nil ==> err == nil && r == child
+//@ ensures [no_wildcard] parent != nil && childT(parent, "**", -1) == nil ==> err == nil && r == child
+//@ ensures [err_nil] err != nil ==> r == nil
 
 //@ func fieldOptsOverride :: opts, fieldName, idx -> r, err
 //@ props C16
@@ -1239,9 +1287,10 @@ package ucfg
 //@ pred cyclic(e error) := typeof(e) == baseError && e.(baseError).reason == ErrCyclicReference
 
 //@ func (cfgPath).String :: p -> r
-//@ trusted
+//@ props C07
+//@ sweep
 //@ pure
-//@ ensures r == pathStr(p)
+//@ ensures [naming !unproved] r == pathStr(p)
 
 //@ func cfgRoot :: cfg -> r
 //@ props C07
@@ -1313,11 +1362,12 @@ package ucfg
 //@ ensures [spec] fresh(r) && r.Path == p
 
 //@ func (*reference).eval :: r, cfg, opts -> s, err
-//@ trusted
+//@ props C07
+//@ sweep
 //@ requires r != nil && opts != nil
 //@ modifies tree(opts)
-//@ ensures (err == nil) == refOk(pathKey(r.Path), cfg)
-//@ ensures err == nil ==> s == refStr(pathKey(r.Path), cfg)
+//@ ensures [naming_ok !unproved] (err == nil) == refOk(pathKey(r.Path), cfg)
+//@ ensures [naming_val !unproved] err == nil ==> s == refStr(pathKey(r.Path), cfg)
 
 // the error predicates of errpred.go, over the reason named by Error.Reason
 //@ func isCyclicError :: err -> r
@@ -1496,8 +1546,15 @@ package ucfg
 //@ modifies *
 //@ ensures [scope] opts.activeFields == old(opts.activeFields)
 
+// what Kind() and Type() say about any handle they are asked about, stated for all handles; a pointer type is not its element type
+//@ axiom [rvkind] forall v reflect.Value :: rvKind(v) == rtKind(rvType(v))
+//@ axiom [rvkind] forall t reflect.Type :: ptrTo(t) != t && rtKind(ptrTo(t)) == 22
 //@ func tryInitDefaults :: val -> r
-//@ trusted
+//@ props C07
+//@ sweep
+//@ uses rvkind
+//@ norte assert
+//@ note the two type assertions to Initializer follow a successful Implements test of the same type (reflect types are not related to static types in the model)
 //@ pure
 //@ rvwrites rvRootOf(val), pointeeStore()
 
